@@ -6,6 +6,7 @@
 import DV.Driver.Syntax
 import DV.Model.Decode
 import DV.Model.Framing
+import DV.Driver.NodeSim
 import DV.Generated.Dict
 import DV.Generated.Classes
 import DV.Generated.Commands
@@ -222,11 +223,20 @@ def handle (toks : List String) : String :=
       s!"D[{",".intercalate dl}] closed={if closed then 1 else 0} spin={if spin then 1 else 0} resid={st.buf.length}"
   | _ => "BAD"
 
+def nameId (n : String) : Nat := (Gen.names.toList.findIdx? (· == n)).getD 0
+
+def attrIds : Node.AttrIds :=
+  { originHost := nameId "origin_host", destRealm := nameId "destination_realm", sessionId := nameId "session_id",
+    resultCode := nameId "result_code", failedAvp := nameId "failed_avp" }
+
 partial def loop (inp : IO.FS.Stream) (out : IO.FS.Stream) : IO Unit := do
   let line ← inp.getLine
   if line.isEmpty then return ()
   let l := String.ofList (line.toList.filter (fun c => c != '\n' && c != '\r'))
-  out.putStrLn (handle (l.splitOn " "))
+  if l.startsWith "NODE " then
+    out.putStrLn (" ## ".intercalate (NodeSim.runScenario (Node.msgInfo env attrIds) l))
+  else
+    out.putStrLn (handle (l.splitOn " "))
   loop inp out
 
 end DV.Driver
